@@ -13,11 +13,12 @@ def cfgsym(name: str):
     return S("config." + name)
 
 
-def problem_interp(ctx, cls) -> Interp:
+def problem_interp(ctx, cls, inst=None) -> Interp:
     """Interpreter whose attributes are those set by the problem's constructor, all symbolic in
-    the configuration (config.<field>)."""
-    key = ("problem_interp", cls.qualname)
-    I = Interp(ctx.ct, cls, {})
+    the configuration (config.<field>); `inst` = {field: int} fixes some fields to numbers."""
+    from ..terms import K
+
+    I = Interp(ctx.ct, cls, {}, obj_attrs={("config", f): K(v) for f, v in (inst or {}).items()})
     try:
         I.call_method("__init__", [("obj", "config")])
     except Unsupported as e:
@@ -29,8 +30,8 @@ def problem_interp(ctx, cls) -> Interp:
     return I
 
 
-def transition_terms(ctx, cls):
-    I = problem_interp(ctx, cls)
+def transition_terms(ctx, cls, inst=None):
+    I = problem_interp(ctx, cls, inst)
     try:
         t = I.call_method("transition", [STATE, ACTION, EVENT])
     except Unsupported as e:
